@@ -11,7 +11,8 @@ off grid, below the first and above the last bin.
 Every case builds the real frequency vector (fc*10^(u/b), fc + u*b/a, i*df ...)
 and calls the compiled operator AND its interpreted source (.py_func): both must
 match the exact value (rtol 1e-9) and each other (few ulp); rows are smoothed
-stacked and alone (row independence).
+stacked and alone (row independence); vectors of centres in ascending,
+descending, shuffled, split and repeated order give the single-centre values.
 """
 import math
 import sys
@@ -229,6 +230,51 @@ def main():
                         run.violation(f"grid:{name}", f"{name} on rfftfreq({n_}, {dt}) at fc={c['c2']}/2 df, bandwidth={c['b']} df: got {g}, "
                                       f"property-level answers {allowed}", dict(kind="smooth-grid", op=name, n=n_, dt=dt, c2=c["c2"], b=c["b"]))
                 run.case(("grid", name, c["c2"], c["b"]) if len(c["res"][ka]) == 1 else None)
+    # ---------------- vectors of centre frequencies: the operator is the pointwise map --------------------
+    # (spec: the smoothed value is defined per centre - SmoothGrid / Smoothing evaluate one centre at a time; a call with
+    #  a vector of centres, in ANY order and with repetitions, is the sequence of the single-centre values)
+    cases_b = {}
+    for c in [c for c in res.cases if isinstance(c, dict) and "c2" in c]:
+        cases_b.setdefault(c["b"], []).append(c)
+    f = np.fft.rfftfreq(2 * M, 0.004)
+    df = f[1]
+    for b_, cs in sorted(cases_b.items()):
+        cs = sorted(cs, key=lambda c: c["c2"])
+        asc = [c["c2"] for c in cs]
+        orders = {"ascending": asc, "descending": asc[::-1], "shuffled": [asc[i] for i in rng.permutation(len(asc))],
+                  "two-ranges": asc[len(asc) // 2:] + asc[:len(asc) // 2], "repeated": asc[::3] + asc[::3]}
+        bycentre = {c["c2"]: c for c in cs}
+        for oname, order in orders.items():
+            fcs = np.array([c2 / 2.0 * df for c2 in order])
+            for name, ka, kb in (("linear_rectangular", "rectA", "rectB"), ("linear_triangular", "triA", "triB")):
+                got = both(name, f, spec, fcs, b_ * df)
+                for col, c2 in enumerate(order):
+                    c = bycentre[c2]
+                    for g, key in ((got[0, col], ka), (got[1, col], kb)):
+                        allowed = [v[0] / v[1] for v in c["res"][key]] + ([0.0] if c["centreBelowZero"] else [])
+                        if name == "linear_triangular" and c["edgeOnly"]:
+                            continue
+                        if not any(abs(g - a) <= RTOL * abs(a) + 1e-12 for a in allowed):
+                            run.violation(f"vector:{name}:{oname}", f"{name} with {len(order)} centres in {oname} order, bandwidth {b_} df: column {col} "
+                                          f"(centre {c2}/2 df) is {g}, property-level answers {allowed}",
+                                          dict(kind="smooth-vector", op=name, order=order, b=b_))
+                run.case(("vector", name, b_, oname))
+    # the five operators without a TLC table on this grid: vector call = single-centre calls (which are judged above)
+    fpos = np.fft.rfftfreq(256, 0.01)
+    rows = np.vstack([1.0 + np.arange(len(fpos)) % 7, 2.0 + np.sin(np.arange(len(fpos))) ** 2])
+    base_fcs = np.geomspace(0.7, 45.0, 17)
+    for name, bw in (("konno_and_ohmachi", 40.0), ("konno_and_ohmachi", 10.0), ("parzen", 1.5), ("savitzky_and_golay", 9), ("log_rectangular", 0.2),
+                     ("log_triangular", 0.25), ("linear_rectangular", 2.0), ("linear_triangular", 3.0)):
+        single = np.hstack([both(name, fpos, rows, np.array([fc]), bw) for fc in base_fcs])
+        for oname, idx in (("ascending", np.arange(17)), ("descending", np.arange(17)[::-1]), ("shuffled", rng.permutation(17)),
+                           ("two-ranges", np.r_[8:17, 0:8]), ("repeated", np.r_[0:17:2, 0:17:2])):
+            got = both(name, fpos, rows, base_fcs[idx], bw)
+            if not np.array_equal(got, single[:, idx]):
+                bad = np.argwhere(got != single[:, idx])[0]
+                run.violation(f"vector:{name}:{oname}", f"{name}(bandwidth={bw}) with the centres in {oname} order: row {bad[0]} column {bad[1]} "
+                              f"(fc={base_fcs[idx][bad[1]]:.4f}) is {got[bad[0], bad[1]]}, the same centre alone gives {single[bad[0], idx[bad[1]]]}",
+                              dict(kind="smooth-vector2", op=name, bw=bw, order=oname))
+            run.case(("vector2", name, bw, oname))
     return run.finish(
         rule="every subset of offset classes (quick: 10 classes per kernel family; thorough: 18 for sinc^4, sampled 20 000) x "
              "operators x bandwidths x centre frequencies on compiled and interpreted kernels; all Savitzky-Golay (m, centre) cases on "
